@@ -157,7 +157,8 @@ def run_case(case):
                     v = sut("clique_equation(special point)", clique_equation, tau, phi, [us[j] for j in range(1, tau)])
                     w = want.subs({"phi": float(phi), **{"u%d" % j: float(x) for j, x in us.items()}})
                     res.count("special_point_checks")
-                    if abs(float(v) - w) > 1e-9 * max(1.0, abs(w)):
+                    vals = {"phi": float(phi), **{"u%d" % j: float(x) for j, x in us.items()}}
+                    if abs(float(v) - w) > 1e-11 * max(1.0, want.abs_subs(vals)):
                         res.violate("clique-equation-differs-at-a-special-point", tau=tau, phi=str(phi), H={j: str(x) for j, x in us.items()}, got=float(v), want=w); break
         res.nontrivial = tau >= 3
         res.sample = {"kind": k, "tau": tau, "terms": want.nterms()}
@@ -193,7 +194,7 @@ def run_case(case):
                         v = sut("chordless_cycle_equation(special point)", chordless_cycle_equation, n, u, phi)
                         w = want.subs({"phi": float(phi), "u": float(u)})
                         res.count("special_point_checks")
-                        if abs(float(v) - w) > 1e-9 * max(1.0, abs(w)):
+                        if abs(float(v) - w) > 1e-11 * max(1.0, want.abs_subs({"phi": float(phi), "u": float(u)})):
                             res.violate("cycle-equation-differs-at-a-special-point", n=n, phi=str(phi), u=str(u), got=float(v), want=w); break
                     if res.verdict != "held":
                         break
